@@ -109,6 +109,8 @@ func TestC16DQueue(t *testing.T) {
 		buf := rapid.IntRange(1, 3).Draw(t, "buffer")
 		d, c := draws(t)
 		s := sysbind.NewDQueue(n, buf, d, c)
+		s.Store.RefuseWritePct = rapid.SampledFrom([]int{0, 0, 10, 30}).Draw(t, "write-refusals")
+		s.Store.RefusePct = rapid.SampledFrom([]int{0, 0, 5, 20}).Draw(t, "precommit-refusals")
 		var hist strings.Builder
 		var requests []int          // requesters in the order the producer received them
 		served := 0                 // how many of them have been served
@@ -182,6 +184,8 @@ func TestC16LoadBalancer(t *testing.T) {
 		buf := rapid.IntRange(1, 3).Draw(t, "buffer")
 		d, c := draws(t)
 		s := sysbind.NewLoadBalancer(ns, nc, buf, d, c)
+		s.Store.RefuseWritePct = rapid.SampledFrom([]int{0, 0, 10, 30}).Draw(t, "write-refusals")
+		s.Store.RefusePct = rapid.SampledFrom([]int{0, 0, 5, 20}).Draw(t, "precommit-refusals")
 		var hist strings.Builder
 		open := map[int]int32{}       // client -> path of its open request
 		answered := map[int32]int{}   // path -> number of pages sent for it
@@ -260,6 +264,8 @@ func TestC16Proxy(t *testing.T) {
 			}
 			return uint(rapid.IntRange(0, int(k)-1).Draw(t, id))
 		})
+		s.Store.RefuseWritePct = rapid.SampledFrom([]int{0, 0, 10, 30}).Draw(t, "write-refusals")
+		s.Store.RefusePct = rapid.SampledFrom([]int{0, 0, 5, 20}).Draw(t, "precommit-refusals")
 		var hist strings.Builder
 		px := s.Named["proxy"][0]
 		crashBeforeAnswer, fails, answers := false, 0, 0
